@@ -21,6 +21,9 @@ pub const NAMES: &[&str] = &[
     "nested_nodes",
     "max_nesting",
     "model_impl_validity_disagreements",
+    "long_lines",
+    "long_line_plies",
+    "max_line_length",
 ];
 const PAIRS: usize = 0;
 const ILLEGAL: usize = 1;
@@ -31,7 +34,10 @@ const CHAIN: usize = 5;
 const NESTED: usize = 6;
 const MAXNEST: usize = 7;
 const DISAGREE: usize = 8;
-const MAX_IDX: &[usize] = &[MAXNEST];
+const LONGS: usize = 9;
+const LONGPLIES: usize = 10;
+const MAXLINE: usize = 11;
+const MAX_IDX: &[usize] = &[MAXNEST, MAXLINE];
 
 fn expect_same(ctx: &mut Ctx, p: &Pos, what: &str, m: Option<Mv>, before: &Full, after: &Board) {
     let f = full(after);
@@ -283,11 +289,20 @@ pub fn run(run: &mut Run) {
             ctx.violate(json!({"kind": "nested", "fen": text::fen(&root), "path": [text::uci(m)]}), "root not restored after the nested exploration".into());
         }
     });
+    // deep single lines on one board: hundreds of nested make calls, then all undone
+    let ll = long_lines(thorough);
+    run.par_shards(&format!("LONG: {} deterministic lines of up to {} plies made on one board and unwound (single deep executions)", ll.len(), uni::long_max(thorough)), ll.len(), |ctx, i| {
+        let n = deep_line(ctx, &ll[i].0, &ll[i].1, "deep");
+        ctx.add(LONGS, 1);
+        ctx.add(LONGPLIES, n as u64);
+        ctx.max(MAXLINE, n as u64);
+    });
 }
 
 pub fn replay(case: &Value, ctx: &mut Ctx) {
     match case["kind"].as_str() {
         Some("nested") => replay_nested(case, ctx),
+        Some("deep") => replay_deep(case, ctx, "deep"),
         _ => replay_pos(case, ctx, &check_pos),
     }
 }
